@@ -990,6 +990,53 @@ def specialise_range_arms(root, ids):
     return map_tree(root, fold)
 
 
+def bool_tuple_match(root):
+    """`match (c, x) { (false, _) => a, (true, P) => b, (true, _) => d }` (first component a bool tested by literals / `_`, the other
+    components pure) is `if c { match x { P => b, _ => d } } else { a }`; a match on a pure scrutinee whose arms are unit variants
+    and a final `_` is an if-chain on `x == Variant`."""
+    def is_bool_pat(p_):
+        return p_.get("k") == "pwild" or (p_.get("k") == "lit" and p_.get("t") == "bool")
+
+    def chain(scrut, arms, ln, ty):
+        # arms: [(pattern, body)] over a pure scrutinee -> if-chain, or None
+        if not arms:
+            return None
+        p0, b0 = arms[0]
+        if p0.get("k") == "pwild":
+            return b0
+        if p0.get("k") == "ppath" and len(arms) >= 2:
+            rest = chain(scrut, arms[1:], ln, ty)
+            if rest is None:
+                return None
+            cond = {"k": "bin", "op": "Eq", "l": copy.deepcopy(scrut), "r": {"k": "def", "dk": "Variant", "path": p0["path"], "ln": ln, "ty": scrut.get("ty")},
+                    "ln": ln, "ty": "bool", "norm": "variant-test"}
+            return {"k": "if", "c": cond, "t": b0, "e": rest, "ln": ln, "ty": ty, "norm": "bool-tuple-match"}
+        return None
+
+    def fn(n):
+        if n.get("k") != "match" or n.get("src") not in ("Normal", None) or any(a.get("guard") for a in n.get("arms", [])):
+            return n
+        sc = hir.simp(n["scrut"])
+        if not (isinstance(sc, dict) and sc.get("k") == "tuple" and len(sc.get("es", [])) == 2 and str(hir.simp(sc["es"][0]).get("ty", "")) == "bool"
+                and pure(sc["es"][1])):
+            return n
+        arms = n["arms"]
+        if not all(a["pat"].get("k") == "ptuple" and len(a["pat"].get("pats", [])) == 2 and is_bool_pat(a["pat"]["pats"][0]) for a in arms):
+            return n
+        branches = {}
+        for val in (True, False):
+            sel = [(a["pat"]["pats"][1], a["body"]) for a in arms
+                   if a["pat"]["pats"][0].get("k") == "pwild" or bool(a["pat"]["pats"][0].get("v")) == val]
+            # bodies are shared between the two sides only through `_` arms: copy them
+            sel = [(q, copy.deepcopy(b_)) for q, b_ in sel]
+            br = chain(hir.simp(sc["es"][1]), sel, n.get("ln"), n.get("ty"))
+            if br is None:
+                return n
+            branches[val] = br
+        return {"k": "if", "c": sc["es"][0], "t": branches[True], "e": branches[False], "ln": n.get("ln"), "ty": n.get("ty"), "norm": "bool-tuple-match"}
+    return map_tree(root, fn)
+
+
 def fold_constant_ifs(root):
     """`if false { A } else { B }` is B, `if true { A } else { B }` is A, `if false { A }` is nothing (after helpers returning a
     constant were inlined; `cfg!(..)` is such a literal too)."""
@@ -1475,6 +1522,7 @@ def normalise_crate(name, crate):
                 b["inlined_from"] = sorted({x["inlined"] for x in all_nodes(h2) if x.get("inlined")} |
                                            {x["inl"] for x in all_nodes(h2) if x.get("inl")})
             h = h2
+        h = bool_tuple_match(h)
         h = fold_constant_ifs(h)
         h = map_tree(h, _or_split)
         h = map_tree(h, _mem_replace)
